@@ -50,7 +50,8 @@ def render(st, rng):
         vals = [str(ut), ds, ts]
         exp = [datetime.datetime(*tm[:6]), datetime.date(tm.tm_year, tm.tm_mon, tm.tm_mday), datetime.time(tm.tm_hour, tm.tm_min, tm.tm_sec)]
         for name in st['header'][3:]:
-            txt = rng.choice(['0', '8.50', '-1.25', '1e3', '12345.678', '0.000', '7'])
+            # (a numeric column may well hold the same text as the time stamp column of this file: a channel echoing the clock)
+            txt = rng.choice(['0', '8.50', '-1.25', '1e3', '12345.678', '0.000', '7', str(ut), str(t0 + 60)])
             vals.append(txt)
             exp.append(float(txt))
         if corr['line'] == r:
@@ -62,11 +63,11 @@ def render(st, rng):
             elif k == 'garble_num':
                 vals[3 + rng.randrange(len(vals) - 3)] = rng.choice(['abc', '1.2.3', '--', '1,5'])
             elif k == 'garble_date':
-                vals[1] = rng.choice(['31Feb06', 'Dec06', '09/12/06', '9Dek06', '9-Dec06'])
+                vals[1] = rng.choice(['31Feb06', 'Dec06', '09/12/06', '9Dek06', '9-Dec06', '9Dec99999999999999999999', '99999999999-Dec-06', str(ut), ts, vals[3] if len(vals) > 3 else 'x'])
             elif k == 'garble_time':
-                vals[2] = rng.choice(['25-00-00', '115017', '11:50:17', '11-60-17'])
+                vals[2] = rng.choice(['25-00-00', '115017', '11:50:17', '11-60-17', ds, str(ut), ds, str(t0 + 60)])
             elif k == 'garble_utim':
-                vals[0] = rng.choice(['x', '1165665017.5', ''])
+                vals[0] = rng.choice(['x', '1165665017.5', '', '99999999999999999999999', '-99999999999999999', '253402300800'])
                 if vals[0] == '':
                     vals[0] = 'NaT'
         rows.append(exp)
